@@ -165,6 +165,65 @@ func dumpValue(b *strings.Builder, v reflect.Value, path string, depth int) {
 	}
 }
 
+// VerifTypePaths lists, at the level of types, every path VerifDump can produce (map keys and slice indexes
+// rendered as []). The harness keeps a frozen copy of this list: a state difference in a path that is not
+// in the frozen copy belongs to a field added to the code later.
+func VerifTypePaths() []string {
+	seen := map[string]bool{}
+	var out []string
+	var walk func(t reflect.Type, path string, depth int)
+	walk = func(t reflect.Type, path string, depth int) {
+		if depth > 12 {
+			return
+		}
+		if t == timeType || t == regexpType {
+			if !seen[path] {
+				seen[path] = true
+				out = append(out, path)
+			}
+			return
+		}
+		if t == rwmuType {
+			return
+		}
+		switch t.Kind() {
+		case reflect.Ptr:
+			walk(t.Elem(), path, depth+1)
+		case reflect.Struct:
+			for k := 0; k < t.NumField(); k++ {
+				p := path + "." + t.Field(k).Name
+				if skipField(p) {
+					continue
+				}
+				walk(t.Field(k).Type, p, depth+1)
+			}
+		case reflect.Map:
+			if !seen[path] {
+				seen[path] = true
+				out = append(out, path)
+			}
+			walk(t.Elem(), path+"[]", depth+1)
+		case reflect.Slice, reflect.Array:
+			if !seen[path] {
+				seen[path] = true
+				out = append(out, path)
+			}
+			if t.Elem().Kind() != reflect.Bool && t.Elem().Kind() != reflect.Uint8 {
+				walk(t.Elem(), path+"[]", depth+1)
+			}
+		case reflect.Func, reflect.Chan, reflect.UnsafePointer, reflect.Interface:
+		default:
+			if !seen[path] {
+				seen[path] = true
+				out = append(out, path)
+			}
+		}
+	}
+	walk(reflect.TypeOf(IRCServer{}), "IRCServer", 0)
+	sort.Strings(out)
+	return out
+}
+
 func uniq(xs []string) []string {
 	var out []string
 	for i, x := range xs {
